@@ -91,6 +91,9 @@ def childiter_of(name):
         return lambda kids: iter(list(kids))
     if name == "revgen":
         return lambda kids: (k for k in reversed(list(kids)))
+    if name == "memolist":  # a pure function that hands back the SAME list object whenever it is asked about the same children again
+        memo = {}
+        return lambda kids: memo.setdefault(tuple(id(k) for k in kids), list(kids))
     if name == "tail":  # drops the first child: an only child disappears, its parent is exported without 'children'
         return lambda kids: list(kids)[1:]
     raise ValueError(name)
@@ -423,7 +426,7 @@ def random_cases(draw):
         "attrs": [draw(attr_list(cls)) for _ in range(size)],
         "start": draw(st.one_of(st.just(0), st.integers(0, size - 1))),
         "attriter": draw(st.sampled_from([None, "sorted", "keyfilter", "genfilter"])),
-        "childiter": draw(st.sampled_from(["list", "reversed", "filter", "tail", "iter", "revgen"])),
+        "childiter": draw(st.sampled_from(["list", "reversed", "filter", "tail", "iter", "revgen", "memolist"])),
         "dictcls": draw(st.sampled_from(["dict", "OrderedDict", "MyDict"])),
         "maxlevel": draw(st.one_of(st.none(), st.integers(0, 6))),
         "abort_at": draw(st.integers(0, 8)),
@@ -443,7 +446,7 @@ def _enum_cases(max_nodes, index, count):
                 continue
             for maxlevel in [None] + list(range(0, height + 3)):
                 for attriter in (None, "sorted", "keyfilter"):
-                    for childiter in ("list", "reversed", "filter", "tail", "iter", "revgen"):
+                    for childiter in ("list", "reversed", "filter", "tail", "iter", "revgen", "memolist"):
                         for dictcls in ("dict", "OrderedDict", "MyDict"):
                             yield {"kind": "tree", "cls": ["AnyNode", "Node", "AttrNM", "LenAnyNode", "EqAnyNode"][k % 5], "shape": forest.to_list(shape), "attrs": [pattern[(i + k) % 3] for i in range(size)], "start": start, "attriter": attriter, "childiter": childiter, "dictcls": dictcls, "maxlevel": maxlevel}
 
